@@ -450,10 +450,10 @@ pub fn c06(ctx: &mut Ctx) {
         }
     }
     // many records (beyond any plausible look-ahead or batch size inside a reader)
-    for nrec in [1025usize, 2049, 5000] {
+    for nrec in [1025usize, 2049, 5000, 70_000] {
         for ser in [Ser::FastaLine, Ser::FastaWrap(3), Ser::Fastq] {
             for cont in ["plain", "gz1-l6", "gz2-mid"] {
-                if !sh.mine() {
+                if !sh.mine() || (nrec > 5000 && (cont == "gz2-mid" || ser == Ser::FastaWrap(3))) {
                     continue;
                 }
                 let recs: Vec<Rec> = (0..nrec).map(|i| Rec { header: format!("r{} d", i), bases: long_bases(1 + i % 9, i) }).collect();
@@ -958,13 +958,22 @@ fn c08_bin_lattice(ctx: &mut Ctx) {
     let code: u64 = 0;
     let mut sh = ctx.shard;
     let mut n = 0u64;
-    for bs in 1..=bmax {
+    // beyond the contiguous range: bin sizes around the widths a bin size could be narrowed to (2^16, 2^24, 2^31, 2^32)
+    let big: [usize; 14] = [65_535, 65_536, 65_537, 1 << 24, (1 << 24) + 1, (1 << 31) - 1, 1 << 31, (1 << 32) - 1, 1 << 32, (1 << 32) + 1, (1 << 32) + 5, (1 << 33) + 2, 1 << 40, (1 << 53) + 1];
+    for bs in (1..=bmax).chain(big.iter().cloned()) {
         if !sh.mine() {
             continue;
         }
         let mut raw = CovComputer::new("-".into(), "-".into(), k, bs, bc);
         raw.set_norm(false);
-        let mut mults: Vec<u64> = (0..=((bc as u64 + 1) * bs as u64 + 1)).collect();
+        let mut mults: Vec<u64> = if bs <= bmax {
+            (0..=((bc as u64 + 1) * bs as u64 + 1)).collect()
+        } else {
+            let b = bs as u64;
+            let mut m: Vec<u64> = vec![0, 1, 4, 5, 6, 16, 255, 256, 65_535, 65_536];
+            m.extend([b - 1, b, b + 1, 2 * b - 1, 2 * b, 3 * b, 6 * b - 1, 6 * b, 7 * b].iter().filter(|&&x| x <= u32::MAX as u64));
+            m
+        };
         mults.extend([1_000_000u64, u32::MAX as u64 - 1, u32::MAX as u64]);
         for mult in mults {
             let mut hm: HashMap<u64, u32> = HashMap::new();
